@@ -5,7 +5,7 @@ Protocol (one case per line; tokens contain no blanks):
   mock_eqdiff <type> <tok>... / <tok>...   two histories, then `EQ b DIFF [map] DEQ b`
   mock_pattern <type> r<row>...        from_pattern(rows) ('_' stands for ' '): `MAP [..] AA rect DBG text` or `PANIC kind`
   p_mock_hist / p_mock_eq / p_mock_pattern: the same inputs judged on the implementation alone against an independent map.
-tokens: dp:x:y:c  di:x:y:c;x:y:c;..  fs:x:y:w:h:c  fc:x:y:w:h:c,c,..  cl:c  sp:x:y:(c|n)  ao:b  ab:b      (operations)
+tokens: dp:x:y:c  di:x:y:c;x:y:c;..  fs:x:y:w:h:c  fc:x:y:w:h:c,c,..  cl:c  sp:x:y:(c|n)  sps:(c|n):x:y;x:y;..  ao:b  ab:b      (operations)
         gp:x:y  aa  dump  sw  dbg  mp:k (dump of map(raw -> (raw + k) mod #values))                      (probes)
   mock_points <type> <c> x:y...        from_points(points, c): `[map] AA rect` or `PANIC setpixel`
 colours are raw values of the colour type.
@@ -83,10 +83,16 @@ def history(rng, t, n, ao, ab, nops, probes=True, fresh=None):
     """token list. `fresh` = set of cells already drawn (to steer between new cells and repeats)."""
     toks = []
     drawn = set() if fresh is None else fresh
+    # the flags of MockDisplay::new() are (false, false): half of the time a flag that keeps its default is NOT set explicitly,
+    # so that the defaults themselves are exercised
+    first = []
+    if ao or rng.random() < 0.5:
+        first.append('ao:%d' % ao)
+    if ab or rng.random() < 0.5:
+        first.append('ab:%d' % ab)
     if rng.random() < 0.5:
-        toks += ['ao:%d' % ao, 'ab:%d' % ab]
-    else:
-        toks += ['ab:%d' % ab, 'ao:%d' % ao]
+        first.reverse()
+    toks += first
     # how eager this history is to provoke a panic
     p_out = rng.choice([0.0, 0.0, 0.1, 0.3]) if not ab else rng.choice([0.1, 0.3, 0.5])
     p_rep = rng.choice([0.0, 0.0, 0.1, 0.3]) if not ao else rng.choice([0.2, 0.4, 0.6])
@@ -145,6 +151,18 @@ def history(rng, t, n, ao, ab, nops, probes=True, fresh=None):
             else:
                 toks.append('sp:%d:%d:%d' % (x, y, color(rng, t, n)))
                 drawn.add((x, y))
+        elif k < 0.955:
+            m = rng.choice([0, 1, 2, 4, 7])
+            ps = [rng.choice(sorted(drawn)) if drawn and len(drawn) < 200 and rng.random() < 0.5 else inpt(rng) for _ in range(m)]
+            if ps and rng.random() < 0.12:
+                ps.insert(rng.randrange(len(ps) + 1), outpt(rng))
+            if rng.random() < 0.5:
+                toks.append('sps:n:' + ';'.join('%d:%d' % p for p in ps))
+                if all(0 <= x < 64 and 0 <= y < 64 for x, y in ps):
+                    drawn.difference_update(ps)
+            else:
+                toks.append('sps:%d:' % color(rng, t, n) + ';'.join('%d:%d' % p for p in ps))
+                drawn.update(ps)
         elif k < 0.97:
             toks.append(rng.choice(['ao:0', 'ao:1', 'ab:0', 'ab:1']))
         else:
@@ -284,11 +302,14 @@ def search(tier, rng):
         else:
             b = history(rng, t, n, 1, 1, rng.choice([0, 1, 2, 4]), probes=False)
         yield J('p_mock_eq', t, *a, '/', *b)
+        if i % 2 == 0:
+            yield J('p_mock_assert', t, *a, '/', *b)
     yield from one_cell_pairs(rng, 'p_mock_eq')
+    yield from one_cell_pairs(rng, 'p_mock_assert')
     n_pat = 500 if tier == 'quick' else 6000
     for i in range(n_pat):
         t, n = TYPES[i % len(TYPES)]
-        yield J('p_mock_pattern', t, *pattern(rng, t, valid_only=True, upper_only=True))
+        yield J('p_mock_pattern', t, *pattern(rng, t, valid_only=True, upper_only=(i % 3 != 0)))
     for t, n in TYPES:
         for code in list(range(32, 127)) + [0, 9, 10, 127, 160, 178, 233, 1633, 65297, 65313, 120793, 0x10FFFF]:
             yield J('p_mock_char', t, code)
@@ -303,7 +324,7 @@ def trivial(line, res):
 
 
 RULE = ('correspondence: (i) random operation histories on a new display (draw_pixel, draw_iter, default fill_solid / fill_contiguous / '
-        'clear, set_pixel, flag changes; 1-13 operations) under the four combinations of allow_overdraw / allow_out_of_bounds_drawing, '
+        'clear, set_pixel, set_pixels, flag changes; 1-13 operations; a flag that keeps the default of new() is left unset half of the time) under the four combinations of allow_overdraw / allow_out_of_bounds_drawing, '
         'points inside, on the border, just outside, on the cells an unchecked index would alias, and at the i32 extremes, repeated points '
         'with tunable probability; interleaved probes get_pixel / affected_area / swap_xy / Debug / full dump; panics caught and compared '
         'by kind; for all 12 colour types; (ii) pairs of histories for == and diff (equal, one cell apart at every corner/border, unrelated); '
@@ -312,7 +333,9 @@ RULE = ('correspondence: (i) random operation histories on a new display (draw_p
         'A case is non-trivial when the model result is not an empty dump/none; distinct = distinct case lines. '
         'search (p_*): the same inputs judged on the implementation alone against an independent HashMap reference: expected panic kind, '
         'get_pixel on a 70x70 window + far points after every operation, tight bounding box, ==/diff against the reference maps, '
-        'from_pattern against the documented character tables, Debug text against the documented format, and the round trip.')
+        'from_pattern against the documented character tables (upper and lower case hex), Debug text against the documented format and '
+        'character tables (also for the dbg probe inside histories: \'?\' exactly for colours without a character), the round trip, and '
+        'assert_eq / assert_pattern (+ _with_message): panic exactly when the cells differ, message shows both displays.')
 EXHAUSTIVE = {'quick': False, 'thorough': False}
 ASSUMPTIONS = ['histories are judged up to their first panic (a panicking test is a failed test); the state left behind by a caught panic '
                'is compared by the search suite only',
@@ -324,17 +347,20 @@ TRUSTED = ['modelled, not verified: core::char::to_digit / from_digit / to_ascii
            'Debug: the header / "(n empty rows skipped)" text is modelled (debug_string) and compared by correspondence; the theorems speak '
            'about the rows (debug_rows)']
 PARTIAL = []
-LEVEL_TEXT = ('Proof: 34 Coq theorems over the Gallina model of MockDisplay (coq/Model/Mockdisplay.v: the 4096-cell array with the index '
+LEVEL_TEXT = ('Proof: 42 Coq theorems over the Gallina model of MockDisplay (coq/Model/Mockdisplay.v: the 4096-cell array with the index '
               'arithmetic as written, both flags, every panic as a value). After ANY operation history that runs to its end get_pixel(p) is the '
               'content given by the last event at p and None elsewhere and outside the display (induction over the history); drawing panics '
               'exactly at the first pixel outside the display / drawn twice while the respective check is on, and with no other panic kind; '
               'affected_area is zero when nothing is touched, contains every touched cell, is contained in every rectangle that does, and each of '
               'its sides touches a touched cell; == holds exactly when all 64x64 cells agree; diff never panics, colours exactly the differing cells '
               'GREEN/RED/BLUE and is empty exactly when ==; swap_xy mirrors, map applies its function cell by cell, from_points sets exactly the listed points; for all 12 ColorMapping tables (regenerated from color_mapping.rs on '
-              'every run) colour->char->colour and char->colour->char are identities on the documented sets, from_pattern puts the colour of the '
+              'every run) colour->char->colour and char->colour->char are identities on the documented sets (pinned: character sets, all RGB '
+              'raw values, the default arm \'?\' which is never a pattern character, so a printed character identifies its colour), from_pattern puts the colour of the '
               'character in row y, column x into cell (x,y), Debug prints a pattern back (padded, trailing blank rows dropped) and parsing '
               'Debug output gives back the same display. Model and code are tied by running both on the same histories / patterns on every run.')
 LEVEL_NOTE = ('Trusted: Coq kernel, extraction (ExtrOcamlBasic), the OCaml/Rust drivers and the translator gen_mock.py (fails closed on any '
-              'unknown source shape); the hand-written model is validated by differential testing (panics caught and canonicalised), not proved '
-              'equal to the Rust code. assert_eq / assert_pattern message paths and EG_FANCY_PANIC output are not modelled.')
+              'unknown source shape, incl. the Default impl behind MockDisplay::new()); the hand-written model is validated by differential '
+              'testing (panics caught and canonicalised), not proved equal to the Rust code. assert_eq / assert_pattern (+ _with_message) are '
+              'not modelled; the search suite p_mock_assert checks on the implementation that they panic exactly when the cells differ and '
+              'show both displays. EG_FANCY_PANIC output and affected_area_origin (private, used only there) are not covered.')
 CLAIMED = True
